@@ -116,6 +116,7 @@ func (p *Prog) VerifyFunc(fn *ssa.Function, fc *FuncContract, cf *ContractFile, 
 	vc.buildReplay(fn, fr.params, st)
 	fr.entry = st.clone()
 	reach := tTrue
+	fr.curReach = tTrue
 	// requires
 	if fc != nil {
 		env := fr.specEnv(fr.entry, "requires")
@@ -158,6 +159,7 @@ func (p *Prog) VerifyFunc(fn *ssa.Function, fc *FuncContract, cf *ContractFile, 
 			results = append(results, acc)
 		}
 		fr.curInstr = nil
+		fr.curReach = freach
 		if fc != nil {
 			env := fr.specEnv(final, "ensures")
 			fr.bindParams(env)
